@@ -191,3 +191,50 @@ def optional_params(fn):
         if isinstance(d, ast.Constant) and d.value is None:
             out.add(a.arg)
     return out
+
+
+def returns_held_buffer(fn):
+    """[(return stmt, field)]: the function fills an array and returns it, and the same object is kept in a field of self (assigned in
+    this function or read back from it): the next call rewrites the array a caller may still hold."""
+    held = {}        # local name -> field
+    for st in ast.walk(fn):
+        if isinstance(st, ast.Assign):
+            fields = [dotted(t)[5:] for t in st.targets if isinstance(t, ast.Attribute) and (dotted(t) or '').startswith('self.') and dotted(t).count('.') == 1]
+            names = [t.id for t in st.targets if isinstance(t, ast.Name)]
+            v = st.value
+            if fields and (names or isinstance(v, ast.Name)):
+                for n in names + ([v.id] if isinstance(v, ast.Name) else []):
+                    held[n] = fields[0]
+            if names and not fields:
+                src = None
+                if isinstance(v, ast.Attribute) and (dotted(v) or '').startswith('self.') and dotted(v).count('.') == 1:
+                    src = dotted(v)[5:]
+                elif isinstance(v, ast.Call) and dotted(v.func) == 'getattr' and len(v.args) >= 2 and norm(v.args[0]) == 'self' \
+                        and isinstance(v.args[1], ast.Constant) and isinstance(v.args[1].value, str):
+                    src = v.args[1].value
+                if src:
+                    for n in names:
+                        held[n] = src
+    if not held:
+        return []
+    # views of the held names (memoryview aliases: x_mv = x)
+    views = dict(held)
+    grew = True
+    while grew:
+        grew = False
+        for st in ast.walk(fn):
+            if isinstance(st, ast.Assign) and len(st.targets) == 1 and isinstance(st.targets[0], ast.Name) and isinstance(st.value, ast.Name) \
+                    and st.value.id in views and st.targets[0].id not in views:
+                views[st.targets[0].id] = views[st.value.id]
+                grew = True
+    written = set()
+    for st in ast.walk(fn):
+        tg = st.targets if isinstance(st, ast.Assign) else ([st.target] if isinstance(st, ast.AugAssign) else [])
+        for t in tg:
+            if isinstance(t, ast.Subscript) and isinstance(_base(t), ast.Name) and _base(t).id in views:
+                written.add(views[_base(t).id])
+    out = []
+    for r in ast.walk(fn):
+        if isinstance(r, ast.Return) and isinstance(r.value, ast.Name) and r.value.id in views and views[r.value.id] in written:
+            out.append((r, views[r.value.id]))
+    return out
